@@ -215,7 +215,7 @@ class Interp:
                         self.ctx = None
                     self.ev(seg=si, kind='panic', task=ot[1], cls=ot[2])
                 elif ot[0] in ('STALL', 'BADSCRIPT', 'WRAW', 'STATE'):
-                    self.ev(seg=si, kind=ot[0].lower(), text=' '.join(ot[1:]))
+                    self.ev(seg=si, kind=ot[0].lower(), text=' '.join(ot[1:]), ctxheld='ctx' in self.held)
 
 
 # ---------------------------------------------------------------- rendering expectations from parsed packets
@@ -300,7 +300,8 @@ def o_generic(I):
                      and pget(x['pkt']['props'], 41) == 0 for x in I.events)
             if not ok:
                 out.append((I.name, e['seg'], 'documented assertion fired without its cause'))
-        if e['kind'] == 'stall':
+        if e['kind'] == 'stall' and not e.get('ctxheld'):
+            # (while the SCRIPT holds the context task unread input is the script's doing: theorem stall_only_when_context_held)
             out.append((I.name, e['seg'], 'stall: unread transport input while the context task sleeps'))
     return out
 
